@@ -325,6 +325,22 @@ def _r043_044(ck, prog, cfg):
                  fn.where(t["ln"]), detail="write_all or is_empty() edge on every path to the next read",
                  path_lines=_lines(fn, path) if path else None)
     ck.floor("R04.4" + _tag(cfg), n4, 4)
+    # what was handed to the socket leaves write_buffer before anything else is appended or written (no reply is sent twice)
+    clears = {b for b, t in fn.calls() if is_callee(t, r"BytesMut::clear$") and _is_buf(fn, t["args"][0], "write_buffer")}
+    encb = {b for b, t in encs} | {b for b, t in tec}
+    for k, wb in enumerate(sorted(writes)):
+        edges = lib2.awaited_ok_edges(fn, wb)
+        if not edges:
+            # result discarded (`let _ = ..` before closing the connection): judge every continuation
+            aw = lib2.await_result(fn, wb)
+            edges = [(None, aw[1] if aw else wb, None)]
+        for (swb, okt, errt) in edges:
+            path = lib2.path_avoiding(fn, okt, lambda x: x in encb or x in writes or x in reads, lambda x: x in clears, (), from_succ=(swb is None))
+            ck.check(path is None, "R04.4", "run:write#%d:cleared-before-reuse%s" % (k, _tag(cfg)),
+                     "after a successful write_all(write_buffer) the loop can append further replies, write again or go back to read "
+                     "without clearing write_buffer: bytes already sent are sent again (duplicated replies, every later reply out of "
+                     "step)", fn.where(fn.term(wb)["ln"]), detail="write_buffer.clear() follows the write on every path",
+                     path_lines=_lines(fn, path) if path else None)
     # write_buffer.clear() only after a successful write_all
     for b, t in fn.calls():
         if is_callee(t, r"BytesMut::clear$") and _is_buf(fn, t["args"][0], "write_buffer"):
